@@ -9,6 +9,8 @@ def _nontrivial(req, impl):
         return impl.startswith("ok") or impl.startswith("err")
     if mode in ("nest", "nestseq"):
         return True
+    if mode == "arith":
+        return "err" not in impl
     # fuzz: the text is not plain ASCII or is long enough to have got past the first keyword
     return len(t[2]) > 40
 
@@ -27,7 +29,7 @@ CFG = {
             "mutations (repaired to valid UTF-8) of SELECT / six update forms / RULE / REGISTER / MODEL / NEURAL RELATION / ML.PREDICT texts "
             "through 15 public parser entry points, each under catch_unwind; Ok must mean the whole input was consumed for the three "
             "whole-request parsers. nest: 8 recursive constructs nested 1..100000 deep, parsed in a child process on a 2 MiB thread stack "
-            "(a stack overflow aborts the child and is reported). nestseq: histories of such texts parsed one after the other on ONE thread (1..200 rejected over-deep texts followed by probes at depths 1..128): each outcome must depend on its own text only. non-trivial: rt = every layout parsed to a tree; scan = any result; "
+            "(a stack overflow aborts the child and is reported). arith: FILTER arithmetic trees (all two-operator shapes, random deeper trees) printed with minimal or redundant parentheses and random whitespace, parsed by parse_arithmetic_expression and compared with the source tree (chains group to the left). fuzz also carries numbers at and beyond 2^64 in every numeric position. nestseq: histories of such texts parsed one after the other on ONE thread (1..200 rejected over-deep texts followed by probes at depths 1..128): each outcome must depend on its own text only. non-trivial: rt = every layout parsed to a tree; scan = any result; "
             "fuzz = text longer than 20 bytes; distinct = distinct request lines",
     "nontrivial": _nontrivial,
     "level_text": "Proofs about (1) a byte-level transcription of the seven hand-written token scanners: for every character "
